@@ -7,7 +7,19 @@ RQ = {'test': 'TestVerifRQ', 'comp': 'rq', 'quick': {'VERIF_N': 150, 'VERIF_OPS'
 GENF = {'test': 'TestVerifGenFuncs', 'comp': 'gen', 'quick': {'VERIF_N': 1500},
         'thorough': {'VERIF_N': 200000, 'VERIF_SNA16_ALL': 1}, 'seeds': {'quick': 1, 'thorough': 2}}
 
+# wire codec: packet.marshal / packet.unmarshal through the chunk interface; its predicate messages are
+# tagged C12-/C13-/C03- and each property looks at its own
+CODEC = {'test': 'TestVerifCodec', 'comp': 'codec', 'quick': {'VERIF_N': 1500}, 'thorough': {'VERIF_N': 25000},
+         'seeds': {'quick': 1, 'thorough': 4}}
+
 PROPS = {
     'C05': {'jobs': [RQ], 'assumptions': []},
     'C16': {'jobs': [GENF, RQ], 'assumptions': []},
+    'C12': {'jobs': [dict(CODEC, pviol_prefix=['C12-'])], 'assumptions': []},
+    'C13': {'jobs': [dict(CODEC, pviol_prefix=['C13-'])], 'assumptions': [
+        'the CRC is uninterpreted in the theorems; the driver recomputes every checksum with its own bitwise CRC32c, '
+        'which the harness compares with hash/crc32 on random strings']},
+    'C03': {'jobs': [dict(CODEC, pviol_prefix=['C03-'])], 'assumptions': [
+        'decoder part only (Props/C03dec.lean): panics are the explicit panic outcomes of the L0 model; '
+        'the harness runs every decode under recover() and a time box']},
 }
